@@ -328,8 +328,9 @@ def encode(i, c):
         "edges " + " ".join(ed),
         "ins " + " ".join(str(int(x)) for x in c["ins"]),
         "rem " + " ".join(str(int(x)) for x in c["rem"]),
-        "muts " + " ".join(mu),
-        "end"]) + "\n"
+        "muts " + " ".join(mu)]
+        + (["flags " + " ".join(str(int(x)) for x in c["flags"])] if c.get("flags") is not None else [])
+        + ["end"]) + "\n"
 
 
 def case_replay(c):
@@ -337,7 +338,8 @@ def case_replay(c):
                 edges_left=[float(x).hex() for x in c["el"]], edges_right=[float(x).hex() for x in c["er"]],
                 edges_parent=[int(x) for x in c["ep"]], edges_child=[int(x) for x in c["ec"]],
                 mutations_position=[float(x).hex() for x in c["mpos"]], mutations_node=[int(x) for x in c["mnode"]],
-                insertion=[int(x) for x in c["ins"]], removal=[int(x) for x in c["rem"]])
+                insertion=[int(x) for x in c["ins"]], removal=[int(x) for x in c["rem"]],
+                flags=None if c.get("flags") is None else [int(x) for x in c["flags"]])
 
 
 def case_from_replay(d):
@@ -347,7 +349,8 @@ def case_from_replay(d):
                 ep=np.array(d["edges_parent"], dtype=np.int32), ec=np.array(d["edges_child"], dtype=np.int32),
                 mpos=np.array([fh(x) for x in d["mutations_position"]], dtype=float),
                 mnode=np.array(d["mutations_node"], dtype=np.int32),
-                ins=np.array(d["insertion"], dtype=np.int32), rem=np.array(d["removal"], dtype=np.int32))
+                ins=np.array(d["insertion"], dtype=np.int32), rem=np.array(d["removal"], dtype=np.int32),
+                flags=None if d.get("flags") is None else np.array(d["flags"], dtype=np.int64))
 
 
 def run_model(cases):
@@ -362,7 +365,8 @@ def run_model(cases):
             continue
         f = ln.split(";")
         ints = lambda s: np.array([int(x) for x in s.split()], dtype=np.int64)  # noqa: E731
-        outs[int(f[0])] = dict(parent=ints(f[1]), child=ints(f[2]), order=ints(f[3]), split=ints(f[4]), mnode=ints(f[5]))
+        outs[int(f[0])] = dict(parent=ints(f[1]), child=ints(f[2]), order=ints(f[3]), split=ints(f[4]), mnode=ints(f[5]),
+                               flags=ints(f[6]) if len(f) > 6 else ints(""))
     return outs
 
 
@@ -380,6 +384,8 @@ def compare(cases, impls):
                                    dict(case_replay(c)), stage="B"))
             continue
         diff = [k for k in FIELDS if not np.array_equal(np.asarray(o[k], dtype=np.int64), m[k])]
+        if o.get("flags") is not None and not np.array_equal(np.asarray(o["flags"], dtype=np.int64), m["flags"]):
+            diff.append("flags")
         if diff:
             fails.append(Violation("split-model-differs",
                                    f"numba kernels differ from the Lean model in {diff} ({c['kind']} case, "
